@@ -35,8 +35,10 @@ LEVEL = "proof"
 RULE = ("exhaustive product: all subsets of the cache-file universe {d.svg, d.png, d.txt, other.svg, other.png, junk} "
         "(thorough: + d.svg.bak, d.PNG) x all registered formats + None + an unknown name x render()/as_<fmt> x "
         "pretty_print x fallback_render_aird x internal renderer ok/failing x the ways of giving the cache (str path, "
-        "pathlib path, file:// URL, zip+file:// URL, dict, dict with subdir, FileHandler instance (memory, local), "
-        "same as the model path, falsy None/''/{}) x diagram roles swapped x an adversarial-uuid model (uuids '_D' and "
+        "pathlib path, file:// URL, zip+file:// URL, dict forms {path: other directory | the model's own path argument} x "
+        "{subdir absent | present}, FileHandler instance (memory, local), same as the model path, falsy None/''/{}; every other "
+        "plausible directory - model directory, parent directory - holds labelled decoys of all candidate names, and the handler's "
+        "resolved root is compared with the configured location) x diagram roles swapped x an adversarial-uuid model (uuids '_D' and "
         "'_D.svg', or colliding ones derived from the live extension table if it is not suffix-free); plus real-converter runs on corpus diagrams with seeded random cache subsets. "
         "distinct = distinct (mode, way, model, diagram, files, fmt, via, pretty, fallback, fresh_ok); non-trivial = a "
         "cache is configured and the format is registered (the lookup runs)")
@@ -270,11 +272,14 @@ def name_of(table, obj):
 # ------------------------------------------------------------------ cache "ways"
 
 FALSY = {"falsy-none": None, "falsy-empty-str": "", "falsy-empty-dict": {}}
-WAYS = ["path-str", "path-pathlib", "url-file", "url-zip", "dict-path", "dict-subdir", "handler-memory",
-        "handler-local", "same-as-model", "falsy-none", "falsy-empty-str", "falsy-empty-dict"]
+# dict forms: path {another directory, the model's own path argument} x subdir {absent, present}
+WAYS = ["path-str", "path-pathlib", "url-file", "url-zip", "dict-path", "dict-subdir", "dict-modelpath", "dict-modelpath-subdir",
+        "handler-memory", "handler-local", "same-as-model", "falsy-none", "falsy-empty-str", "falsy-empty-dict"]
 SPEC_KIND = {"path-str": "pathOrUrl", "path-pathlib": "pathOrUrl", "url-file": "pathOrUrl", "url-zip": "pathOrUrl",
-             "dict-path": "mapping", "dict-subdir": "mapping", "handler-memory": "handler", "handler-local": "handler",
+             "dict-path": "mapping", "dict-subdir": "mapping", "dict-modelpath": "mapping", "dict-modelpath-subdir": "mapping",
+             "handler-memory": "handler", "handler-local": "handler",
              "same-as-model": "samePath", "falsy-none": "falsy", "falsy-empty-str": "falsy", "falsy-empty-dict": "falsy"}
+CACHED_WAYS = [w_ for w_ in WAYS if SPEC_KIND[w_] != "falsy"]
 EXPECT_HANDLER = {"pathOrUrl": "fromPath", "mapping": "fromKwargs", "handler": "given", "samePath": "loaders", "falsy": None}
 
 
@@ -320,6 +325,17 @@ class World:
             spec = {"path": str(self.cdir)}
         elif way == "dict-subdir":
             spec = {"path": str(self.base), "subdir": "cache"}
+        elif way == "dict-modelpath":  # the dict's path is the model's own path argument (a directory + entrypoint)
+            path = str(self.mdir)
+            self.model_kw = {"entrypoint": self.aird.name}
+            spec = {"path": path}
+            self.cdir = self.mdir
+        elif way == "dict-modelpath-subdir":  # ... plus a further handler argument: the cache is a sub-directory of the model's
+            path = str(self.mdir)
+            self.model_kw = {"entrypoint": self.aird.name}
+            spec = {"path": path, "subdir": "cache"}
+            self.cdir = self.mdir / "cache"
+            self.cdir.mkdir()
         elif way == "handler-memory":
             spec = fh_mem.MemoryFileHandler()
         elif way == "handler-local":
@@ -334,9 +350,13 @@ class World:
         self.model = None
         self.current: dict | None = None
         self.baseline_names = {p.name for p in self.cdir.iterdir()} if self.cdir.exists() else set()
+        # places a wrongly resolved cache location would look in: same file names, different (labelled) content
+        self.decoy_dirs = [(lbl, d) for lbl, d in (("modeldir", self.mdir), ("parentdir", self.base)) if d != self.cdir]
+        self.decoys_written: set[str] = set()
+        self.on_disk = way not in FALSY and way not in ("handler-memory", "url-zip")
 
     def load(self):
-        self.model = self.capellambse.MelodyModel(self.path, diagram_cache=self.spec, fallback_render_aird=self.allow)
+        self.model = self.capellambse.MelodyModel(self.path, diagram_cache=self.spec, fallback_render_aird=self.allow, **self.model_kw)
         h = self.model.diagram_cache
         if h is not None:
             orig = h.open
@@ -348,8 +368,14 @@ class World:
             h.open = opened
         return self.model
 
-    def set_files(self, files: dict[str, bytes]):
-        """Make the cache contain exactly `files` (plus, for same-as-model, the model's own files)."""
+    def set_files(self, files: dict[str, bytes], decoy_names: tuple = (), mode: str = "tag"):
+        """Make the cache contain exactly `files` (plus, for same-as-model, the model's own files); every other
+        plausible directory (model directory, parent directory) permanently holds a decoy of each name."""
+        for n in decoy_names:
+            if n not in self.decoys_written:
+                self.decoys_written.add(n)
+                for lbl, d in self.decoy_dirs:
+                    (d / n).write_bytes(decoy_content(n, lbl, mode))
         if self.way in FALSY:
             self.current = dict(files)
             if self.model is None:
@@ -374,7 +400,7 @@ class World:
             self.load()
         else:
             for p in list(self.cdir.iterdir()):
-                if p.name not in self.baseline_names and p.is_file():
+                if p.name not in self.baseline_names and p.is_file() and not (self.cdir in [d for _l, d in self.decoy_dirs]):
                     p.unlink()
             for n, c in files.items():
                 (self.cdir / n).write_bytes(c)
@@ -429,6 +455,11 @@ def judge(out: Outcome, D, table, world: World, d, other_uuids: list[str], case:
         fail("cache-config", f"diagram_cache configured={configured} for spec {case['way']}")
     if world.handler_kind() != EXPECT_HANDLER[SPEC_KIND[case["way"]]]:
         fail("cache-config", f"handler identity {world.handler_kind()}")
+    hp = getattr(world.model.diagram_cache, "path", None)
+    if world.on_disk and isinstance(hp, pathlib.Path) and os.path.realpath(hp) != os.path.realpath(world.cdir):
+        fail("cache-location", f"cache files are looked up in {hp}, configured location is {world.cdir}")
+    if case["mode"] == "tag" and "DECOY@" in str(obs["result"]):
+        fail("cache-location", f"the result derives from a file outside the configured cache: {obs['result']}")
     if fmt is None or fmt not in table:
         if opened:
             fail("opens-without-format", f"opened {opened}")
@@ -507,6 +538,14 @@ def judge(out: Outcome, D, table, world: World, d, other_uuids: list[str], case:
                 b["result"] == obs["result"] and ("raise" in b["result"] or canon(b["value"]) == canon(obs["value"])))
             if not same:
                 fail("fallback-differs-from-uncached", f"fallback result {obs['result']} differs from the uncached model's {b['result']}")
+
+
+def decoy_content(name: str, where: str, mode: str) -> bytes:
+    if mode == "tag":
+        return PREFIX + f"DECOY@{where}|{name}".encode()
+    if name.endswith(".svg"):
+        return f'<svg xmlns="http://www.w3.org/2000/svg"><!-- DECOY in {where}: {name} --></svg>'.encode("utf-8")
+    return b"\x89PNG\r\n\x1a\nDECOY in " + where.encode() + b" " + name.encode()
 
 
 def content_for(name: str, mode: str) -> bytes:
@@ -605,7 +644,7 @@ def run(ctx: Ctx) -> Outcome:
                             others = [x.uuid for x in dgs if x.uuid != d.uuid]
                             bd = next(x for x in nocache.model.diagrams if x.uuid == d.uuid)
                             for files in subsets_of(d.uuid, others, way):
-                                w.set_files({n: content_for(n, mode) for n in files})
+                                w.set_files({n: content_for(n, mode) for n in files}, tuple(universe(d.uuid, others, False)), mode)
                                 d = next(x for x in w.model.diagrams if x.uuid == d.uuid)  # zip way reloads the model
                                 for fresh_ok in freshes:
                                     STATE["fail_fresh"] = not fresh_ok
@@ -674,7 +713,7 @@ def run(ctx: Ctx) -> Outcome:
     run_mode("tag", [(lib, "lib", None)], WAYS, all_subsets, all_fmts, (False, True), (True, False), ("render", "as"),
              lambda n: range(min(n, 2)))
     # (B) adversarial uuids ('_D' / '_D.svg'): the file names of one diagram extend the other's
-    run_mode("tag", [(lib, "adv", adversarial)], ["path-str", "handler-memory", "same-as-model"] if not ctx.thorough else WAYS[:9],
+    run_mode("tag", [(lib, "adv", adversarial)], ["path-str", "handler-memory", "same-as-model", "dict-modelpath-subdir"] if not ctx.thorough else CACHED_WAYS,
              all_subsets, all_fmts, (False,), (True,), ("render",), lambda n: range(min(n, 2)))
 
     # (C) real converters: Library Test exhaustively over the file subsets for two ways; corpus diagrams with random subsets
@@ -688,7 +727,7 @@ def run(ctx: Ctx) -> Outcome:
                 if ctx.thorough or len(c) in (0, 1, len(u)) or ctx.rng.random() < 0.25:
                     yield list(c)
 
-    run_mode("real", [(lib, "lib", None)], ["path-str", "handler-memory"] if not ctx.thorough else WAYS[:9], few_subsets, all_fmts,
+    run_mode("real", [(lib, "lib", None)], ["path-str", "handler-memory", "dict-modelpath-subdir"] if not ctx.thorough else CACHED_WAYS, few_subsets, all_fmts,
              (False, True), (True, False) if ctx.thorough else (True,), ("render", "as"), lambda n: range(min(n, 2)))
     corpus = [data / "melodymodel" / v for v in (("5_0", "5_2", "6_0") if ctx.thorough else ("5_2",))]
     ndg = ctx.pick(4, 12)
@@ -762,9 +801,11 @@ def replay(ctx: Ctx, case: dict) -> str | None:
     try:
         table = live_table(D)
         w = World(ctx, src, case["way"], case["allow"], rewrite, tag="replay")
-        w.set_files({n: content_for(n, case["mode"]) for n in case["files"]})
+        w.set_files({})
         d = next(x for x in w.model.diagrams if x.uuid == case["uuid"])
         others = [x.uuid for x in w.model.diagrams if x.uuid != d.uuid]
+        w.set_files({n: content_for(n, case["mode"]) for n in case["files"]}, tuple(universe(d.uuid, others, False)), case["mode"])
+        d = next(x for x in w.model.diagrams if x.uuid == case["uuid"])
         nocache = World(ctx, src, "falsy-none", False, rewrite, tag="replay-base")
         nocache.set_files({})
         bd = next(x for x in nocache.model.diagrams if x.uuid == d.uuid)
